@@ -16,15 +16,23 @@ type vpC04Outcome struct {
 
 func vpC04Run(waf *corazawaf.WAF, names, vals []string, where []int) vpC04Outcome {
 	tx := waf.NewTransaction()
+	query := ""
 	for i := range names {
 		switch where[i] {
 		case 0:
-			tx.AddGetRequestArgument(names[i], vals[i])
+			// query-string arguments go through the request target, as a connector passes them
+			if query != "" {
+				query += "&"
+			}
+			query += names[i] + "=" + vals[i]
 		case 1:
 			tx.AddPostRequestArgument(names[i], vals[i])
 		default:
 			tx.AddRequestHeader(names[i], vals[i])
 		}
+	}
+	if query != "" {
+		tx.ProcessURI("/?"+query, "GET", "HTTP/1.1")
 	}
 	tx.ProcessRequestHeaders()
 	_, _ = tx.ProcessRequestBody()
@@ -76,11 +84,20 @@ var vpC04Confs = []string{
 	"SecRule ARGS_NAMES \"@streq a\" \"id:1,phase:2,pass,setvar:tx.score=+1\"\n" +
 		"SecRule &ARGS:a \"@ge 2\" \"id:2,phase:2,pass,setvar:tx.score=+5\"\n" +
 		"SecRule ARGS:/^[ab]$/ \"@streq x\" \"id:3,phase:2,pass,t:lowercase,setvar:tx.score=+3\"\n",
+	// a chain that reads MATCHED_VAR after a link that several values satisfy
+	"SecRule ARGS_GET \"@rx ^[xX]\" \"id:1,phase:2,deny,status:403,chain\"\n" +
+		"  SecRule MATCHED_VAR \"@streq x\"\n",
+	// captures of a rule that several values satisfy, read by the next rule
+	"SecRule ARGS_GET \"@rx ^([xX])\" \"id:1,phase:2,pass,capture\"\n" +
+		"SecRule TX:1 \"@streq x\" \"id:2,phase:2,deny,status:403\"\n",
+	// more arguments than SecArgumentsLimit
+	"SecArgumentsLimit 1\nSecRule ARGS_GET:a \"@rx ^[xX]\" \"id:1,phase:2,deny,status:403\"\n" +
+		"SecRule REQBODY_ERROR \"@eq 1\" \"id:2,phase:2,pass,setvar:tx.score=+1\"\n",
 }
 
 func vpC04Body(confs []string, ci int) {
 	waf := vpBuild("c04:"+vpD(ci), "SecRuleEngine On\nSecRequestBodyAccess On\n"+confs[ci])
-	vp.SymbolicMapOrder(3, "github.com/corazawaf/coraza/v3/internal/collections")
+	vp.SymbolicMapOrder(3, "github.com/corazawaf/coraza/v3/internal/collections", "github.com/corazawaf/coraza/v3/internal/url")
 	p := 2 + vp.Choice("nargs", vp.Param("ARGS", 2))
 	names := make([]string, p)
 	vals := make([]string, p)
@@ -98,10 +115,11 @@ func vpC04Body(confs []string, ci int) {
 	// agrees with the canonical one, all orders agree with each other
 	vp.SymbolicMapOrder(0)
 	o2 := vpC04Run(waf, names, vals, where)
-	vp.Assert(o1.interrupted == o2.interrupted && o1.ruleID == o2.ruleID && o1.status == o2.status, "interruption differs between two runs of the same request")
-	vp.Assert(vpMultisetEq(o1.fired, o2.fired), "set of fired rules differs between two runs of the same request")
-	vp.Assert(vpMultisetEq(o1.triples, o2.triples), "matched (variable, key, value) triples differ between two runs of the same request")
-	vp.Assert(o1.score == o2.score, "anomaly counter differs between two runs of the same request")
+	tag := " (configuration " + vpD(ci) + ")"
+	vp.Assert(o1.interrupted == o2.interrupted && o1.ruleID == o2.ruleID && o1.status == o2.status, "interruption differs between two runs of the same request"+tag)
+	vp.Assert(vpMultisetEq(o1.fired, o2.fired), "set of fired rules differs between two runs of the same request"+tag)
+	vp.Assert(vpMultisetEq(o1.triples, o2.triples), "matched (variable, key, value) triples differ between two runs of the same request"+tag)
+	vp.Assert(o1.score == o2.score, "anomaly counter differs between two runs of the same request"+tag)
 	vp.Reached("end")
 }
 
